@@ -51,6 +51,8 @@ func c14InitMaps() {
 	tm["j"] = reflect.TypeOf(zoo.JMap{})
 	tm["[[int"] = reflect.TypeOf([][]int32{})
 	tm["[m"] = reflect.TypeOf([]map[string]int64{})
+	tm["[props"] = reflect.TypeOf([]zoo.Props{})
+	tm["props"] = reflect.TypeOf(zoo.Props{})
 	c14Maps[0] = tm
 	c14Maps[1] = map[string]reflect.Type{}
 	// wrong: every name mapped to the type of the next name (classes to other
